@@ -116,6 +116,7 @@ type World struct {
 	mainTask *Task
 	crashSentinel any
 	sleepUntil    time.Time
+	stamp         atomic.Int64
 }
 
 func goid() uint64 {
@@ -602,6 +603,11 @@ func (w *World) DrawChance(num, den int, label string) bool {
 	w.Yield("draw:" + label)
 	return w.C.Chance(num, den, label)
 }
+
+// Stamp returns the next value of a global event counter. Only one task runs
+// between two scheduler decisions, so stamps taken by tasks right after a
+// release are totally ordered in real (simulated) execution order.
+func (w *World) Stamp() int64 { return w.stamp.Add(1) }
 
 // Now is the simulated time since the run began.
 func (w *World) Now() time.Duration { return time.Since(w.start) }
